@@ -215,13 +215,18 @@ def lat_probe(rng):
     """readers of a finished lattice that bind its lattice column by value: negation, count and a plain clause (finding F22:
     not part of ALL, used by C04 only, where its failures are matched against the finding's signature)"""
     prog = Program([Rel('src', [T.I32, T.I32]), Rel('probe', [T.I32, T.I32]), Rel('best', [T.I32, MAXI], is_lat=True), Rel('lo', [T.I32, DUALI], is_lat=True),
-                    Rel('nothit', [T.I32, T.I32]), Rel('nothit_lo', [T.I32, T.I32]), Rel('cnt', [T.I32, T.I32, T.I32]), Rel('hit', [T.I32, T.I32])],
+                    Rel('nothit', [T.I32, T.I32]), Rel('nothit_lo', [T.I32, T.I32]), Rel('cnt', [T.I32, T.I32, T.I32]), Rel('hit', [T.I32, T.I32]),
+                    Rel('l3', [T.I32, T.I32, MAXI], is_lat=True), Rel('hit3', [T.I32, T.I32]), Rel('nothit3', [T.I32, T.I32])],
                    [Rule([Head('best', [V('k'), V('v')]), Head('lo', [V('k'), Dual(V('v'))])], [Clause('src', [AVar('k'), AVar('v')])]),
                     Rule([Head('nothit', [V('k'), V('v')])], [Clause('probe', [AVar('k'), AVar('v')]), Neg('best', [AVar('k'), AVar('v')])]),
                     Rule([Head('nothit_lo', [V('k'), V('v')])], [Clause('probe', [AVar('k'), AVar('v')]), Neg('lo', [AVar('k'), AExpr(Dual(V('v')))])]),
                     Rule([Head('cnt', [V('k'), V('v'), V('n')])], [Clause('probe', [AVar('k'), AVar('v')]),
                                                                   Agg('n', 'count', [], 'best', [AVar('k'), AVar('v')], None, '(n as i32)', int)]),
-                    Rule([Head('hit', [V('k'), V('v')])], [Clause('probe', [AVar('k'), AVar('v')]), Clause('best', [AVar('k'), AVar('v')])])])
+                    Rule([Head('hit', [V('k'), V('v')])], [Clause('probe', [AVar('k'), AVar('v')]), Clause('best', [AVar('k'), AVar('v')])]),
+                    # an index with the lattice column but not all columns keeps the keys of superseded values
+                    Rule([Head('l3', [V('k'), Bin('+', V('k'), V('v'), 2), V('v')])], [Clause('src', [AVar('k'), AVar('v')])]),
+                    Rule([Head('hit3', [V('k'), V('v')])], [Clause('probe', [AVar('k'), AVar('v')]), Clause('l3', [AVar('k'), AWild(), AVar('v')])]),
+                    Rule([Head('nothit3', [V('k'), V('v')])], [Clause('probe', [AVar('k'), AVar('v')]), Neg('l3', [AVar('k'), AWild(), AVar('v')])])])
 
     def inputs(rng):
         nk = rng.choice([1, 3, 6])
